@@ -215,7 +215,8 @@ class IMAPConnection:
                 try:
                     resp_dec = b64decode(resp_bytes)
                 except binascii.Error as exc:
-                    raise AuthenticationError() from exc
+                    raise AuthenticationError(
+                        'Invalid base64 string.') from exc
                 else:
                     responses.append(ChallengeResponse(chal.data, resp_dec))
             else:
